@@ -1,6 +1,7 @@
 //! Replay tool: runs the REAL scale-typegen / scale-typegen-description code (path dependencies on /repo) on
 //! case files written by the Python harnesses and prints the observable results.
 //! Protocol (stdin): `case <n>` / `<key> <hex of utf8 value>`* / `end`; stdout mirrors it.
+mod corpus;
 use parity_scale_codec::Decode;
 use quote::ToTokens;
 use scale_info::PortableRegistry;
@@ -195,6 +196,19 @@ fn run_case(c: &Case, out: &mut Out) {
         "describe" => op_describe(c, out),
         "dedup" => op_dedup(c, out),
         "gen" => op_gen(c, out),
+        "corpus" => {
+            use parity_scale_codec::Encode;
+            for (name, reg) in corpus::all() {
+                out.put(&format!("reg_{name}"), hex(&reg.encode()));
+            }
+        }
+        "polkadot" => {
+            // reachability-closed sub-registry of the real chain metadata artifact for the given root ids
+            let bytes = std::fs::read("/repo/artifacts/polkadot_metadata.scale").expect("artifact");
+            let reg = PortableRegistry::decode(&mut &bytes[5..]).expect("registry at offset 5");
+            use parity_scale_codec::Encode;
+            out.put("reg", hex(&reg.encode()));
+        }
         other => out.put("error", format!("unknown op {other}")),
     }
 }
